@@ -111,12 +111,12 @@ func ruleZONCE(c *Ctx) {
 // ---------- W3 ----------
 
 var w3Exceptions = map[string]string{
-	"starlark.StopProfile":                "profiler: process-wide by design",
-	"starlark.StartProfile":               "profiler: process-wide by design, documented as not part of script-visible state",
-	"starlark.profiler":                   "profiler goroutine",
-	"(*starlark.Thread).beginProfSpan":    "profiler bookkeeping",
-	"(*starlark.Thread).endProfSpan":      "profiler bookkeeping",
-	"starlark.setMaxAlloc (test hook)":    "",
+	"starlark.StopProfile":             "profiler: process-wide by design",
+	"starlark.StartProfile":            "profiler: process-wide by design, documented as not part of script-visible state",
+	"starlark.profiler":                "profiler goroutine",
+	"(*starlark.Thread).beginProfSpan": "profiler bookkeeping",
+	"(*starlark.Thread).endProfSpan":   "profiler bookkeeping",
+	"starlark.setMaxAlloc (test hook)": "",
 }
 
 func globalRoot(v ssa.Value) *ssa.Global {
